@@ -241,6 +241,9 @@ theorem findEarlierPara_embed (id idx : Nat) (st : PStyle) (n : Nat) (g : Geo) (
       rcases (List.take ((lines.length : Int) - (st.widows : Int)).toNat lines).getLast? with _ | ⟨i, y⟩ <;>
         simp [embedFrag, embedSt]
 
+@[simp] theorem cutEnd_embed (f : Frag) : (embedFrag f).cutEnd = embedFrag f.cutEnd := by
+  cases f <;> simp [embedFrag, OFrag.cutEnd, Frag.cutEnd, embedSt]
+
 mutual
 theorem findEarlierGo_embed : (fs : List Frag) →
     (findEarlierGo (embedFragList fs)).found = embedFound (PM.findEarlierGo fs).found ∧
